@@ -67,7 +67,7 @@ def single_gauss(rng, tier):
     lead = tuple(int(v) for v in rng.integers(1, 3, int(rng.integers(0, 2))))
     y = rng.normal(size=(*lead, N, D)) * 10.0 ** rng.integers(-2, 3) + rng.normal(size=(*lead, 1, D)) * 3
     _GOFF[0] += 1
-    if _GOFF[0] % 4 == 0:
+    if _GOFF[0] % 3 == 1:
         # a cloud far from the origin (mean >> spread): sum y y^T - N m m^T would cancel, the pooled scatter of the centred data does not
         y = rng.normal(size=(*lead, N, D)) * float(rng.uniform(0.1, 1.0)) + rng.uniform(1.0, 3.0, size=(*lead, 1, D)) * 1e5
     s = None if (rng.random() < 0.3 and not _FORCE[0]) else sal_kind(rng, rng.uniform(0.0, 2.0, size=(*lead, N)))
